@@ -50,7 +50,7 @@ func (h *Handler) remove(id string) {
 	h.trackedM.Lock()
 	defer h.trackedM.Unlock()
 	if iter, ok := h.tracked[id]; ok {
-		close(iter.msgC)
+		close(iter.done)
 		delete(h.tracked, id)
 	}
 }
@@ -77,23 +77,29 @@ func (h *Handler) HandleMessage(msg stanza.Message, r xmlstream.TokenReadEncoder
 			}
 		}
 	}
+	// Do not hold the lock while waiting for the iterator to take the message:
+	// closing the iterator (or the end of the query) needs it.
 	h.trackedM.Lock()
-	defer h.trackedM.Unlock()
 	iter, ok := h.tracked[queryID]
-	if !ok {
-		if h.inner != nil {
-			return h.inner.HandleMessage(msg, struct {
-				xml.TokenReader
-				xmlstream.Encoder
-			}{
-				TokenReader: xmlstream.MultiReader(xmlstream.Token(tok), xmlstream.InnerElement(r)),
-				Encoder:     r,
-			})
+	h.trackedM.Unlock()
+	if ok {
+		select {
+		case iter.msgC <- xmlstream.MultiReader(xmlstream.Token(msgTok), xmlstream.Token(tok), r):
+			return nil
+		case <-iter.done:
+			// The iterator was closed in the meantime, the message is not tracked
+			// anymore.
 		}
-		return nil
 	}
-
-	iter.msgC <- xmlstream.MultiReader(xmlstream.Token(msgTok), xmlstream.Token(tok), r)
+	if h.inner != nil {
+		return h.inner.HandleMessage(msg, struct {
+			xml.TokenReader
+			xmlstream.Encoder
+		}{
+			TokenReader: xmlstream.MultiReader(xmlstream.Token(tok), xmlstream.InnerElement(r)),
+			Encoder:     r,
+		})
+	}
 	return nil
 }
 
@@ -123,6 +129,7 @@ func (h *Handler) FetchIQ(ctx context.Context, filter Query, iq stanza.IQ, s *xm
 	msgC := make(chan xml.TokenReader)
 	iter := &Iter{
 		msgC: msgC,
+		done: make(chan struct{}),
 		h:    h,
 		id:   filter.ID,
 	}
